@@ -48,6 +48,10 @@ func (r Raw) TypeString() string {
 }
 
 func (r Raw) Value() string {
+	if r.Class != asn1.ClassUniversal {
+		// the tag number only identifies a type in the universal class
+		return hex.EncodeToString(r.Bytes)
+	}
 	switch r.Tag {
 	case asn1.TagBoolean:
 		var b bool
